@@ -21,10 +21,10 @@ Definition cBang : N := 33.
 Definition cN : N := 110.
 Definition sEven : str := [101; 118; 101; 110]%N.
 Definition sOdd : str := [111; 100; 100]%N.
-Definition sL : str := [108]%N.
-Definition sLm : str := [108; 45]%N.
-Definition sMinus : str := [45]%N.
-Definition sMinusL : str := [45; 108]%N.
+Definition sL : str := [cL].
+Definition sLm : str := [cL; cMinus].
+Definition sMinus : str := [cMinus].
+Definition sMinusL : str := [cMinus; cL].
 Definition sCommaEven : str := [44; 101; 118; 101; 110]%N.
 
 Fixpoint str_eqb (a b : str) : bool :=
@@ -101,15 +101,15 @@ Definition m_class (cs : list N) : matcher :=
 Definition m_opt (m : matcher) : matcher := fun s => s :: m s.
 Definition m_cat (a b : matcher) : matcher := fun s => flat_map b (a s).
 Definition m_alt (a b : matcher) : matcher := fun s => a s ++ b s.
-Definition str_dec : forall a b : str, {a = b} + {a <> b} := list_eq_dec N.eq_dec.
-(* g* : breadth first over the sets of remainders; every round of g consumes at least one byte, so
-   length s rounds are enough *)
-Fixpoint m_star_set (fuel : nat) (g : matcher) (S : list str) : list str :=
-  S ++ match fuel with
-       | O => []
-       | Datatypes.S f => m_star_set f g (nodup str_dec (flat_map g S))
-       end.
-Definition m_star (g : matcher) : matcher := fun s => m_star_set (length s) g [s].
+(* g*$ : for every suffix of s, whether it is a concatenation of strings matched by g.  The table
+   lists the answers for s, tl s, tl (tl s), ..., []; g must consume at least one byte. *)
+Fixpoint star_tab (g : matcher) (s : str) : list bool :=
+  match s with
+  | [] => [true]
+  | _ :: r =>
+      let t := star_tab g r in
+      existsb (fun rem => (length rem <=? length r)%nat && nth (length r - length rem) t false) (g s) :: t
+  end.
 
 (* (-\d+)|(\d+(-(\d+)?)?)|(\d+)?-l(-\d+)?|l(-(\d+)-?)? *)
 Definition reT : matcher :=
@@ -128,10 +128,14 @@ Definition reG : matcher := m_alt (m_lit sCommaEven) (m_alt (m_lit sOdd) reNT).
 Definition alt1 (s : str) : bool := has_prefix sEven s.             (* only at offset 0 because of ^ *)
 Definition alt2_at (s : str) : bool := has_prefix sOdd s.
 Definition is_nil (s : str) : bool := match s with [] => true | _ :: _ => false end.
-Definition alt3_at (s : str) : bool := existsb is_nil (m_cat reNT (m_star reG) s).   (* $ : nothing left *)
+(* alternative 3 at the suffix t of the subject s (len = length s): [!n]?(...) then (group)* up to $ *)
+Definition alt3_at (tab : list bool) (len : nat) (t : str) : bool :=
+  existsb (fun r => nth (len - length r) tab false) (reNT t).
 Fixpoint search (p : str -> bool) (s : str) : bool :=
   p s || match s with [] => false | _ :: r => search p r end.
-Definition re_match (s : str) : bool := alt1 s || search (fun t => alt2_at t || alt3_at t) s.
+Definition re_match (s : str) : bool :=
+  alt1 s || let tab := star_tab reG s in
+            search (fun t => alt2_at t || alt3_at tab (length s) t) s.
 
 (* ParsePageSelection: None = syntax error *)
 Definition ParsePageSelection (s : str) : option (list str) :=
